@@ -4,7 +4,7 @@ cd /verif
 n=$1; checks=$2
 d=$(mktemp -d /tmp/hr.XXXX)
 git -C /repo worktree add -q --detach $d/repo HEAD
-if ! git -C $d/repo apply --3way /verif/notes/harmless/$n/patch.diff >/dev/null 2>&1; then echo "$n | patch does not apply on new HEAD"; git -C /repo worktree remove --force $d/repo; rm -rf $d; rm -rf /verif/build/*-scratch-$(python3 -c "import hashlib,sys;print(hashlib.blake2b(sys.argv[1].encode(),digest_size=4).hexdigest())" $d/repo); exit 0; fi
+if ! git -C $d/repo apply --3way /verif/notes/${HDIR:-harmless}/$n/patch.diff >/dev/null 2>&1; then echo "$n | patch does not apply on new HEAD"; git -C /repo worktree remove --force $d/repo; rm -rf $d; rm -rf /verif/build/*-scratch-$(python3 -c "import hashlib,sys;print(hashlib.blake2b(sys.argv[1].encode(),digest_size=4).hexdigest())" $d/repo); exit 0; fi
 for c in $checks; do
   out=$(VERIF_REPO=$d/repo ./check $c --tier quick 2>&1)
   rc=$?
